@@ -148,6 +148,14 @@ def file_text(rng, f):
             k += 1
         if line is not None:
             out.append(line)
+    if rng.random() < 0.25:
+        # TAB-separated columns (files exported from a spreadsheet / written with '\t'.join): any white space separates yanny words;
+        # blanks inside the quoted descriptions stay (seeded change C07-22)
+        def tabs(line):
+            i = line.find('"')
+            lead, rest = (line, '') if i < 0 else (line[:i], line[i:])
+            return '\t'.join(lead.split(' ')) .replace('\t\t', '\t ') + rest if lead.startswith(('maskbits ', 'maskalias ')) else line
+        out = [tabs(l) for l in out]
     text = ''.join(head + out)
     _FILE_NO[0] += 1
     if _FILE_NO[0] % 3 == 0:
@@ -193,7 +201,10 @@ def gen_queries(rng, f, n):
             names = rng.sample(labs, min(k, len(labs)))
             u = rng.random()
             if u < 0.12:
-                names.insert(rng.randrange(len(names) + 1), rng.choice(['NOT_A_LABEL', 'Q', labs[0] + 'X']))
+                # unknown labels, incl. the empty string, a blank, a padded label and two labels joined by a blank (what
+                # sdss_flagname(concat=True) prints is NOT a label: seeded change C07-23)
+                names.insert(rng.randrange(len(names) + 1), rng.choice(['NOT_A_LABEL', 'Q', labs[0] + 'X', '', ' ', ' ' + labs[0], labs[-1] + ' ',
+                                                                         labs[0] + ' ' + labs[-1]]))
             elif u < 0.2 and names:
                 names.insert(rng.randrange(len(names) + 1), rng.choice(names))
             names = [_case(rng, x) for x in names]
